@@ -32,9 +32,28 @@ S_INACTIVE, S_ACTIVE, S_PARTIAL, S_PAUSED = 0, 1, 2, 3
 STATE_NAMES = {0: "inactive", 1: "active", 2: "partial-active", 3: "paused"}
 O_OK, O_PERM, O_STATE, O_OTHER = 0, 1, 2, 3
 OUTCOME_NAMES = {0: "ok", 1: "permission-error", 2: "state-error", 3: "other-error"}
-V_PLAIN, V_ORIG, V_OTHER = 0, 1, 2
-VARIANT_NAMES = {0: "", 1: "+origCaller", 2: "+forOther"}
-G_LIFECYCLE, G_ONLYOWNER, G_PERM, G_PARTY, G_OWNEROROPEN, G_HUB, G_NOBODY, G_QUERY, G_ANYONE = range(9)
+V_PLAIN, V_ORIG, V_OTHER, V_MULTI = 0, 1, 2, 3
+V_FOREIGN0 = 10            # 10 + 3 * k + o: payment k (0 main, 1 / 2 additional) recorded for another owner with relation o
+OTHER_AUTH = {0: "also-authorised", 1: "revoked", 2: "never-authorised"}
+VARIANT_NAMES = {0: "", 1: "+origCaller", 2: "+forOther", 3: "+multiOwn"}
+for _k in range(3):
+    for _o in range(3):
+        VARIANT_NAMES[V_FOREIGN0 + 3 * _k + _o] = f"+foreignOwner@{_k}({OTHER_AUTH[_o]})"
+
+
+def is_foreign(v):
+    return v >= V_FOREIGN0
+
+
+def foreign_k(v):
+    return (v - V_FOREIGN0) // 3
+
+
+def foreign_o(v):
+    return (v - V_FOREIGN0) % 3
+
+
+G_LIFECYCLE, G_ONLYOWNER, G_PERM, G_PARTY, G_OWNEROROPEN, G_HUB, G_NOBODY, G_QUERY, G_ANYONE, G_HUBOWNED = range(10)
 K_LIFECYCLE, K_VIEW, K_CONFIG, K_USERFUNDS, K_USERNOFUNDS, K_ENTRY, K_ONBEHALF = range(7)
 SR_ANY, SR_ACTIVE, SR_LIQUIDITY, SR_BOOTSTRAP, SR_PAUSEDONLY = range(5)
 PERM_OWNER, PERM_ADMIN, PERM_PAUSE = 1, 2, 4
@@ -57,6 +76,9 @@ PERM_MSGS = [
     "Pair creation is disabled", "Caller is not the initial liq adder",                       # router
     "May only call this function through VM query",              # require_queried
     "Only original proposer may cancel a pending proposal", "Only original proposer may withdraw a pending proposal",
+    # original_owner_helper / farm-staking-proxy check_stake_farm_payments: a paid position is recorded for somebody else
+    "Provided address is not the same as the original owner", "Original owner is not the same for all payments",
+    "Underlying positions original owners do not match",
 ]
 STATE_MSGS = [
     "Not active", "Swap is not enabled", "Active state", "Initial liquidity was already added",   # pair / farms / router
@@ -143,6 +165,8 @@ def holds_role(row, role):
         return role == 10 + row.garg
     if g == G_HUB:
         return role == R_AGENT
+    if g == G_HUBOWNED:                  # garg = 1: some paid position is recorded for another owner
+        return role == R_AGENT and row.garg == 0
     return True
 
 
@@ -292,6 +316,11 @@ class World:
         self.must(vm.call(self.P, self.hub, "whitelist", [agents[R_AGENT], agents[R_REVOKED], agents[R_BLACK]]))
         self.must(vm.call(self.P, self.hub, "removeWhitelist", [agents[R_REVOKED]]))
         self.ocall(self.hub, "blacklist", [agents[R_BLACK]])
+        # three other position owners: one authorised the agent too, one revoked it, one never authorised it
+        self.B = {o: self.user(f"other{o}") for o in range(3)}
+        self.must(vm.call(self.B[0], self.hub, "whitelist", [agents[R_AGENT]]))
+        self.must(vm.call(self.B[1], self.hub, "whitelist", [agents[R_AGENT]]))
+        self.must(vm.call(self.B[1], self.hub, "removeWhitelist", [agents[R_AGENT]]))
 
     # ---- snapshots
     def dump(self):
@@ -692,11 +721,24 @@ class FarmWorldA(World):
                 r = self.must(vm.call(a, self.farm, "enterFarm", [], [(self.farming, 0, 10 ** 6)]), "enter")
                 ns.append(dec_payment(r.out[0])[1])
             self.own[a] = ns
+        self.pp, self.fp = {}, {}          # per role account: three principal-owned positions; one per other owner
+        for b in self.B.values():
+            vm.setbal(b, self.farming, 0, BIG)
         for a in A.values():
-            r = self.must(vm.call(self.P, self.farm, "enterFarm", [], [(self.farming, 0, 10 ** 6)]), "enterP")
-            n = dec_payment(r.out[0])[1]
-            self.must(vm.transfer(self.P, a, [(FARMTK, n, 10 ** 6)]))
-            self.ofp[a] = n
+            ns = []
+            for _ in range(3):
+                r = self.must(vm.call(self.P, self.farm, "enterFarm", [], [(self.farming, 0, 10 ** 6)]), "enterP")
+                n = dec_payment(r.out[0])[1]
+                self.must(vm.transfer(self.P, a, [(FARMTK, n, 10 ** 6)]))
+                ns.append(n)
+            self.ofp[a] = ns[0]
+            self.pp[a] = ns
+            self.fp[a] = {}
+            for o, b in self.B.items():
+                r = self.must(vm.call(b, self.farm, "enterFarm", [], [(self.farming, 0, 10 ** 6)]), "enterB")
+                n = dec_payment(r.out[0])[1]
+                self.must(vm.transfer(b, a, [(FARMTK, n, 10 ** 6)]))
+                self.fp[a][o] = n
         self.some_attrs = vm.attrs(self.P, FARMTK, self.own[self.P][0])
         self.set_block(200, 200, 5 + 7 * 7, 1200)          # rewards accrued, week 8
         self.snap[c][S_ACTIVE] = self.take_snapshot()
@@ -741,12 +783,29 @@ class FarmWorldA(World):
             return None                    # "User total farm position is empty!" precedes the state check
         return Call([])
 
+    def multi(self, row, role, amount=10 ** 6, token=FARMTK):
+        """three position payments, all recorded for the principal except payment k of a foreign-owner variant"""
+        a = self.caller(role)
+        ps = [(token, n, amount) for n in self.pp[a]]
+        if is_foreign(row.variant):
+            ps[foreign_k(row.variant)] = (token, self.fp[a][foreign_o(row.variant)], amount)
+        return ps
+
     def ep__enterFarmOnBehalf(self, row, role, st):
-        return Call([self.P], [(self.farming, 0, 1000)])
+        if row.variant == V_PLAIN:
+            return Call([self.P], [(self.farming, 0, 1000)])
+        if st == S_INACTIVE:
+            return None
+        ps = self.multi(row, role)
+        return Call([self.P], [(self.farming, 0, 1000), ps[1], ps[2]])          # the main payment is the farming token
 
     def ep__claimRewardsOnBehalf(self, row, role, st):
-        p = self.pos(row, role, st)
-        return Call([], [p], watch=self.rew_watch(self.caller(role))) if p else None
+        if row.variant == V_PLAIN:
+            p = self.pos(row, role, st)
+            return Call([], [p], watch=self.rew_watch(self.caller(role))) if p else None
+        if st == S_INACTIVE:
+            return None
+        return Call([], self.multi(row, role), watch=self.rew_watch(self.caller(role)))
 
     def ep__calculateRewardsForGivenPosition(self, row, role, st):
         if st == S_INACTIVE:
@@ -829,11 +888,24 @@ class StakingWorldA(World):
                 r = self.must(vm.call(a, self.farm, "stakeFarm", [], [(STK, 0, 10 ** 8)]), "stake")
                 ns.append(dec_payment(r.out[0])[1])
             self.own[a] = ns
+        self.pp, self.fp = {}, {}
+        for b in self.B.values():
+            vm.setbal(b, STK, 0, BIG)
         for a in A.values():
-            r = self.must(vm.call(self.P, self.farm, "stakeFarm", [], [(STK, 0, 10 ** 8)]), "stakeP")
-            n = dec_payment(r.out[0])[1]
-            self.must(vm.transfer(self.P, a, [(STKFARM, n, 10 ** 8)]))
-            self.ofp[a] = n
+            ns = []
+            for _ in range(3):
+                r = self.must(vm.call(self.P, self.farm, "stakeFarm", [], [(STK, 0, 10 ** 8)]), "stakeP")
+                n = dec_payment(r.out[0])[1]
+                self.must(vm.transfer(self.P, a, [(STKFARM, n, 10 ** 8)]))
+                ns.append(n)
+            self.ofp[a] = ns[0]
+            self.pp[a] = ns
+            self.fp[a] = {}
+            for o, b in self.B.items():
+                r = self.must(vm.call(b, self.farm, "stakeFarm", [], [(STK, 0, 10 ** 8)]), "stakeB")
+                n = dec_payment(r.out[0])[1]
+                self.must(vm.transfer(b, a, [(STKFARM, n, 10 ** 8)]))
+                self.fp[a][o] = n
         for a in A.values():            # an unbond token per role (third position)
             r = self.must(vm.call(a, self.farm, "unstakeFarm", [], [(STKFARM, self.own[a][2], 10 ** 8)]), "unstake")
             self.unb[a] = dec_payment(r.out[0])[1]
@@ -893,12 +965,29 @@ class StakingWorldA(World):
             return None
         return Call([])
 
+    def multi(self, row, role):
+        a = self.caller(role)
+        ps = [(STKFARM, n, 10 ** 8) for n in self.pp[a]]
+        if is_foreign(row.variant):
+            ps[foreign_k(row.variant)] = (STKFARM, self.fp[a][foreign_o(row.variant)], 10 ** 8)
+        return ps
+
     def ep__stakeFarmOnBehalf(self, row, role, st):
-        return Call([self.P], [(STK, 0, 1000)])
+        if row.variant == V_PLAIN:
+            return Call([self.P], [(STK, 0, 1000)])
+        if st == S_INACTIVE:
+            return None
+        ps = self.multi(row, role)
+        return Call([self.P], [(STK, 0, 1000), ps[1], ps[2]])
 
     def ep__claimRewardsOnBehalf(self, row, role, st):
-        p = self.pos(row, role, st)
-        return Call([], [p], watch=[(self.P, STK), (self.caller(role), STK)]) if p else None
+        watch = [(self.P, STK), (self.caller(role), STK)]
+        if row.variant == V_PLAIN:
+            p = self.pos(row, role, st)
+            return Call([], [p], watch=watch) if p else None
+        if st == S_INACTIVE:
+            return None
+        return Call([], self.multi(row, role), watch=watch)
 
     def ep__calculateRewardsForGivenPosition(self, row, role, st):
         if st == S_INACTIVE:
@@ -1753,7 +1842,7 @@ class StakingProxyWorldA(World):
         self.ocall(self.lpfarm, "addSCAddressToWhitelist", [self.proxy])
         self.ocall(self.stk, "addSCAddressToWhitelist", [self.proxy])
         self.set_block(500, 500, 6, 3000)              # the pair's first price observation is old enough
-        everyone = list(A.values()) + [self.P]
+        everyone = list(A.values()) + [self.P] + list(self.B.values())
         for a in everyone:
             vm.setbal(a, T1, 0, BIG)
             vm.setbal(a, STK, 0, BIG)
@@ -1778,9 +1867,21 @@ class StakingProxyWorldA(World):
             pp = farm_pos(self.P, 10 ** 6)
             self.must(vm.transfer(self.P, a, [pp]))
             d["p_pos"] = pp
-            pd = dual(self.P, farm_pos(self.P, 10 ** 6))
-            self.must(vm.transfer(self.P, a, [pd]))
-            d["p_dual"] = pd
+            duals = []
+            for _ in range(3):
+                pd = dual(self.P, farm_pos(self.P, 10 ** 6))
+                self.must(vm.transfer(self.P, a, [pd]))
+                duals.append(pd)
+            d["p_dual"] = duals[0]
+            d["p_duals"] = duals[1:]
+            d["f_pos"], d["f_dual"] = {}, {}          # per other owner: an LP-farm position and a dual-yield token of theirs
+            for o, b in self.B.items():
+                fpos = farm_pos(b, 10 ** 6)
+                self.must(vm.transfer(b, a, [fpos]))
+                d["f_pos"][o] = fpos
+                fd = dual(b, farm_pos(b, 10 ** 6))
+                self.must(vm.transfer(b, a, [fd]))
+                d["f_dual"][o] = fd
             self.tok[a] = d
         self.set_block(900, 900, 6, 5400)
         self.snap[c] = {S_ACTIVE: self.take_snapshot()}
@@ -1801,7 +1902,14 @@ class StakingProxyWorldA(World):
         return Call([top_u(1), top_u(1)], [d["p_dual"] if row.variant == V_ORIG else d["own_dual"]])
 
     def ep__stakeFarmOnBehalf(self, row, role, st):
-        return Call([self.P], [self.mine(role)["p_pos"]])
+        d = self.mine(role)
+        if row.variant == V_PLAIN:
+            return Call([self.P], [d["p_pos"]])
+        ps = [d["p_pos"]] + list(d["p_duals"])          # LP-farm position + two additional dual-yield tokens
+        if is_foreign(row.variant):
+            k, o = foreign_k(row.variant), foreign_o(row.variant)
+            ps[k] = d["f_pos"][o] if k == 0 else d["f_dual"][o]
+        return Call([self.P], ps)
 
     def ep__claimDualYieldOnBehalf(self, row, role, st):
         a = self.A["farm-staking-proxy"][role]
